@@ -79,7 +79,7 @@ def build(e, leaves):
         return build(e[1], leaves).reshape(e[2])
     if tag == "einsum":
         _, eq, operands = e
-        return Einsum(eq, tuple(build(p, leaves) for p in operands))
+        return Einsum(eq, *[build(p, leaves) for p in operands])
     if tag == "independent":
         _, a, reals_var, bint_var, diag_var = e
         return Independent(build(a, leaves), reals_var, bint_var, diag_var)
